@@ -219,7 +219,7 @@ def build(case):
                 doc.add(depth, s)
             helper_calls(doc, depth)
             if case.get("prior"):
-                doc.add(depth, "Q9% = 1 / Z9%")
+                doc.add(depth, "Q9% = 1 / Z9%" if case["prior"] == 1 else 'Q9$ = MID$("ab", Z9%)')
                 doc.add(depth, "ON ERROR GOTO 0")
             wrap(doc, depth, nest, fault_body, 1)
             doc.add(depth, 'PRINT "not reached %d"' % level)
